@@ -100,6 +100,14 @@ def sarsa_closed(al, la, Q, rdcc):
     return out
 
 
+
+def prepare(ctx):
+    """Translator tie (see gen_tie.py): the source of this slice is re-translated to Lean on every run
+    (harness/artv/rtrans.py) and proved equal to the model the property theorems are about"""
+    from .gen_tie import gen_prepare, extra_theorems
+    from .. import rtrans
+    gen_prepare(ctx, extra_theorems("rtrans"), rtrans.COVERS)
+
 def run(ctx):
     cov = ctx.cov
     ctx.assumptions += [
